@@ -871,6 +871,13 @@ class Interp(ExprMixin):
 def _known_mapping(v):
     """{name: value} of a dict literal / dict(...) call / captured **kwargs whose keys are all known."""
     a = v.single_atom() if isinstance(v, Poly) else None
+    if a is not None and a[0] == 'app' and a[1] == 'setitem' and len(a[2]) == 3 and isinstance(a[2][1], Const) \
+            and isinstance(a[2][1].value, str):
+        base = _known_mapping(a[2][0])         # d[key] = value on a known mapping
+        if base is None:
+            return None
+        base[a[2][1].value] = a[2][2]
+        return base
     if a is None or a[0] != 'app' or a[1] not in ('dict', 'kwargs'):
         return None
     out = {}
